@@ -274,8 +274,17 @@ def w2(tier):
 def shard(ctx):
     from ..templates import any_template
 
-    prof = StreamProfile(knobs_fn=knobs, script_len=ctx.params["script_len"], op_weights=weights(), templates=any_template)
-    prof.template_prob = 0.3
+    from ..templates import t_name_clash, ALL as _ALL
+    from ..ctemplates import t_name_nest
+
+    def templ(rng):
+        r = rng.random()
+        return t_name_clash(rng) if r < 0.2 else (t_name_nest(rng) if r < 0.35 else any_template(rng))
+
+    prof = StreamProfile(knobs_fn=knobs, script_len=ctx.params["script_len"], op_weights=weights(), templates=templ)
+    prof.template_prob = 0.35
+    # names spelled like the printer's fallbacks next to same-named locals of inlined callees
+    prof.rotation = [t_name_clash, t_name_nest] + list(_ALL)
     run_stream(ctx, prof, [PrintMonitor(ctx)])
 
 
